@@ -1131,7 +1131,7 @@ static bool configure(const std::string &job, Tier tier)
 	for (int kind : cfg.kinds) { add_ops(o, M_NEW, S, 0, 0); for (size_t i = o.size() - S; i < o.size(); ++i) o[i].b = kind;
 		if (kpokeable(kind)) { add_ops(o, M_NEW, S, 0, 1); for (size_t i = o.size() - S; i < o.size(); ++i) o[i].b = kind; }
 		// the kinds counted through the C++ refcount wrappers also start at 2^32+1
-		if (kind == K_CXX || kind == K_GENI || kind == K_IOBUF) { add_ops(o, M_NEW, S, 0, 2); for (size_t i = o.size() - S; i < o.size(); ++i) o[i].b = kind; } }
+		if ((kind == K_CXX || kind == K_GENI || kind == K_IOBUF) && k != "mixed") { add_ops(o, M_NEW, S, 0, 2); for (size_t i = o.size() - S; i < o.size(); ++i) o[i].b = kind; } }
 	if (cfg.conv) { add_ops(o, M_CONVREF, S, S); add_ops(o, M_CONVPTR, S, S); add_ops(o, M_CONVNULL, S, 0); }
 	if (cfg.genconv) add_ops(o, M_GENCONV, S, S);
 	if (cfg.cxx) { add_ops(o, M_CXXASSIGN, S, S); add_ops(o, M_CXXMOVE, S, S); add_ops(o, M_CXXCOPY, S, S); add_ops(o, M_CXXSET, S, 6); add_ops(o, M_CXXDETACH, S, 0); add_ops(o, M_CXXDTOR, S, 0); }
